@@ -164,6 +164,18 @@ def run(ctx: Ctx):
         from ..model import Inconclusive
         raise Inconclusive(f"propagate_end_to_children: {norm(effs[0])} is not a selection between the task's own end and the container's")
     ok = all(got[k] in want[k] for k in want)
+    # the walk starts at every root, whether or not the root has an end of its own
+    from .common import enclosing_ifs as _encl
+    starts = [c for c in own_nodes(pce) if isinstance(c, ast.Call) and norm(c.func) == "propagate_end_to_children"]
+    for c in starts:
+        conds = [norm(i.test) for (i, b) in _encl(c, pce.node) if "end" in norm(i.test).lower() and "parent" not in norm(i.test)]
+        ctx.ob("R08.8", f"{pce.qual}: {norm(c)[:60]} for every root", (pce, c), not conds,
+               "nested containers are reached even below a root without an end" if not conds else
+               f"propagation starts only under {conds}: an end on a container nested below an undated root is ignored and its tasks are "
+               "anchored at the project end, after their container's deadline",
+               key="R08.8|_propagateContainerEndDates|start at every root")
+    if not starts:
+        raise AnchorMissing("_propagateContainerEndDates: top-level propagate call not found")
     ctx.ob("R08.8", f"{inner.qual}: {norm(effs[0])[:70]}", (inner, effs[0]), ok,
            "a task's own end wins over the end inherited from its container; without one the container's applies" if ok else
            f"selection table {got}: a nested container's own (earlier) end is overridden by the outer container's, so its tasks end after "
